@@ -338,6 +338,32 @@ def run(pm, ctx):
               msg='TypeScript namespace imports changed', key='C16-R4|%s' % ti.qualname)
     totality.run_pack(pm, ctx, 'C16-R5', ('stone.backends.js_helpers', 'stone.backends.js_client', 'stone.backends.js_types', 'stone.backends.tsd_helpers', 'stone.backends.tsd_types', 'stone.backends.tsd_client'),
                       True, 'the JavaScript/TypeScript backends', TOTALITY_PRECONDITIONS, (15, 6, 0))
+    # one notion of "this namespace declares something" across the TypeScript backends: the client
+    # imports exactly the namespaces for which tsd_types emits a module
+    n_tests = 0
+    for mod in (TT.rsplit('.', 1)[0], TC.rsplit('.', 1)[0]):
+        for f in pm.funcs_in(mod):
+            for n in own_nodes(f.node, include_nested=True):
+                if isinstance(n, ast.Call) and call_name(n) == 'len' and n.args and \
+                        isinstance(getattr(n, '_parent', None), ast.Compare):
+                    inner = n.args[0]
+                    direct = any(isinstance(x, ast.Attribute) and x.attr in ('data_types', 'aliases')
+                                 for x in ast.walk(inner))
+                    via = isinstance(inner, ast.Call) and \
+                        call_name(inner) == 'get_data_types_for_namespace'
+                    if not (direct or via):
+                        continue
+                    n_tests += 1
+                    ctx.check('C16-R4', via and not direct,
+                              '%s: "namespace has declarations" is get_data_types_for_namespace '
+                              '(types and aliases)' % f.short,
+                              '%s:%d' % (f.module.relpath, n.lineno),
+                              msg='%s decides whether a namespace has declarations from %s instead '
+                                  'of get_data_types_for_namespace: a namespace holding only '
+                                  'aliases is treated differently by tsd_types and tsd_client'
+                                  % (f.short, unparse(inner)),
+                              key='C16-R4|%s|has-declarations' % f.qualname)
+    ctx.floor('C16-R4', n_tests, 2, 'namespace-emptiness tests in the TypeScript backends')
     ctx.import_rules(pm, 'C09', {'C09-R4'}, 'C16-R6',
                      'get_imported_namespaces keeps a namespace referenced through data types, '
                      'aliases or annotation types (shared with C09-R4)', only=lambda o:
